@@ -578,7 +578,7 @@ func refUnits(tier string) []harness.Unit {
 			for p := 0; p < parts; p++ {
 				u = append(u, refCraftedUnit(s, lc, p, parts))
 			}
-			u = append(u, refReceiveUnit(s, lc, tier == "thorough"), refJumpUnit(s, lc), transportFaultUnit(s, lc))
+			u = append(u, refReceiveUnit(s, lc, tier == "thorough"), refJumpUnit(s, lc), transportFaultUnit(s, lc), readTimeoutUnit(s, lc))
 		}
 	}
 	u = append(u, refPaddingSweepUnit(true), refPaddingSweepUnit(false))
